@@ -20,6 +20,8 @@ H4  degeneracy reduction: TIBaseBackend._unique on symbolic values (all coincide
     patterns) returns first-occurrence representatives and the matching 0/1 projector; for
     coupling operators with repeated eigenvalues (d=3, d=4) and symbolic coefficients the
     back-end states equal those of the same network without reduction.
+H5  truncation rule: TIBaseBackend._scipy_svd on symbolic singular values keeps the same
+    rank for s and c*s (relative threshold) and keeps every value with s_i/s_max >= precision.
 Outside: equality with the exact reduced thermal state at non-zero coupling,
 independence of n_steps, weak-coupling limit, positivity.
 """
@@ -529,6 +531,98 @@ class Degenerate(Case):
         return obs
 
 
+def _diag_svd(theta, *a, **kw):
+    """scipy.linalg.svd stand-in for a DIAGONAL theta with ordered non-negative diagonal
+    (what the truncation-rule case feeds in): u = vh = 1, s = diagonal"""
+    k = theta.shape[0]
+    return sym.obj_eye(k), np.array([theta[i, i] for i in range(k)], dtype=object), sym.obj_eye(k)
+
+
+def _sym_amax(a, *args, **kw):
+    """numpy.amax on an object array of (symbolic) reals: comparisons fork the path"""
+    a = np.asarray(a)
+    if a.dtype != object:
+        return np.amax(a, *args, **kw)
+    return env.sym_max([S.of(v) for v in a.reshape(-1)])
+
+
+def _sym_argmax(a, *args, **kw):
+    """numpy.argmax on a boolean vector = index of the first True (0 if none); symbolic
+    entries fork the path"""
+    a = np.asarray(a)
+    if a.dtype != object:
+        return np.argmax(a, *args, **kw)
+    for i, x in enumerate(a.reshape(-1)):
+        if bool(x):
+            return i
+    return 0
+
+
+class TruncRule(Case):
+    """H5: the truncation rule of the real TIBaseBackend._scipy_svd is RELATIVE (epsrel):
+    for symbolic ordered non-negative singular values s (theta = diag(s)) and a symbolic
+    overall scale c > 0, the kept rank for c*s equals the kept rank for s (the Gibbs state
+    must not depend on a constant energy offset, which only rescales the imaginary-time
+    MPS), every value with s_i / s_max >= precision is kept, and what is cut off after the
+    kept block starts with a value below precision * s_max."""
+    functions = ("TIBaseBackend._scipy_svd",)
+    stubs = ("oqupy.backends.tempo_backend.svd -> for diagonal theta: u = vh = 1, s = diagonal (real scipy svd on the replay)",
+             "numpy amax / argmax in tempo_backend -> same semantics on symbolic values, comparisons fork the path")
+    env = {"extra": {"oqupy.backends.tempo_backend.svd": _diag_svd, "oqupy.backends.tempo_backend.amax": _sym_amax,
+                     "oqupy.backends.tempo_backend.argmax": _sym_argmax}}
+    max_paths = 400
+
+    def __init__(self, k, precision):
+        self.k, self.p = k, precision
+        self.id = "H5/trunc_rule_k%d_p%g" % (k, precision)
+        self.bounds = {"singular_values": k, "precision": precision, "scale": "symbolic c > 0"}
+
+    def run(self, inp):
+        k, p = self.k, self.p
+        t = [inp.real("t%d" % i, lo=0) for i in range(k)]
+        s = [None] * k
+        s[k - 1] = t[k - 1]
+        for i in range(k - 2, -1, -1):
+            s[i] = s[i + 1] + t[i]                # s_0 >= s_1 >= ... >= 0 by construction
+        cc = inp.real("c", lo=0)
+        inp.assume(s[0] > 0)
+        inp.assume(cc > 0)
+
+        def kept(scale):
+            if inp.mode == "real":
+                theta = np.diag(np.array([float(scale * x) for x in s]))
+            else:
+                theta = sym.obj_zeros((k, k))
+                for i in range(k):
+                    theta[i, i] = scale * s[i]
+            u, sv, vh = TIBaseBackend._scipy_svd(theta, p)
+            return len(sv), u, vh
+        chi1, u1, vh1 = kept(inp.one())
+        chi2, _, _ = kept(cc)
+        obs = [Ob.holds("kept rank invariant under s -> c*s (relative threshold)", chi1 == chi2, key="scale-covariance",
+                        info="kept %d of %d singular values for s, %d for c*s" % (chi1, k, chi2)),
+               Ob.holds("shapes of the truncated factors", u1.shape == (k, chi1) and vh1.shape == (chi1, k)),
+               Ob.holds("at least one value kept", chi1 >= 1)]
+        smax = s[0]
+        for i in range(k):
+            if i >= chi1:
+                obs.append(Ob.holds("discarded value %d is below precision * s_max" % i, s[i] < p * smax, key="kept-above-threshold",
+                                    info="a singular value with s_i / s_max >= precision was discarded"))
+        if chi1 < k:
+            obs.append(Ob.holds("truncation starts at the first value below precision * s_max",
+                                all(bool(s[i] >= p * smax) for i in range(chi1)) if inp.mode != "sym" else
+                                _all_sb([s[i] >= p * smax for i in range(chi1)])))
+        return obs
+
+
+def _all_sb(conds):
+    from vf.sym import SB
+    out = True
+    for x in conds:
+        out = (x & out) if isinstance(x, SB) else (out if x else False)
+    return out
+
+
 class ZRotation(Case):
     """H1 at ARBITRARY coupling: the exact reduced thermal state is covariant under rotations
     about the coupling axis, rho(R H R^+) = R rho(H) R^+ for R = diag(u, conj u)/|u| (the
@@ -631,12 +725,12 @@ def cases(tier):
     cs = [Orient(2), Orient(3), Orient(4), Orient(2, cplx=False), Orient(3, cplx=False), Wiring(2), Wiring(3), Repeat(3),
           Orient(2, d=3), Orient(2, cplx=False, d=3), Normalised("generic"), Normalised("hermitian"), Coefficients(3), HermitianCoupled(2), HermitianCoupled(3), HermitianCoupled(4), ZRotation(2), ZRotation(3), ZRotation(4),
           HermitianCoupled(2, (1, 0)), HermitianCoupled(3, (1, 0)), HermitianCoupled(2, (1, 0, -2)), ZRotation(2, (1, 0)),
-          ZRotation(3, (1, 0)), UniqueLocal(3, False), UniqueLocal(3, True), Degenerate((1, 1, 0), 2), Degenerate((0.5, -0.5, 0.5), 3),
+          ZRotation(3, (1, 0)), TruncRule(2, 0.125), TruncRule(3, 1e-6), UniqueLocal(3, False), UniqueLocal(3, True), Degenerate((1, 1, 0), 2), Degenerate((0.5, -0.5, 0.5), 3),
           Degenerate((1, 1, 0), 3)]
     if tier == "thorough":
         cs += [Orient(5), Orient(4, cplx=False), Wiring(4), Repeat(4), Repeat(2),
                Orient(3, d=3), Orient(3, cplx=False, d=3), Orient(4, cplx=False, d=3),
                HermitianCoupled(4, (1, 0)), HermitianCoupled(3, (1, 0, -2)), ZRotation(4, (1, 0)),
-               UniqueLocal(4, False), UniqueLocal(4, True), Degenerate((0, 1, 1), 3), Degenerate((0.5, 0.5, -0.5, -0.5), 2),
+               TruncRule(3, 0.125), TruncRule(2, 1e-6), TruncRule(4, 0.5), UniqueLocal(4, False), UniqueLocal(4, True), Degenerate((0, 1, 1), 3), Degenerate((0.5, 0.5, -0.5, -0.5), 2),
                Degenerate((0.5, 0.5, -0.5, -0.5), 3), Degenerate((0.5, -0.5, 0.5, -0.5), 3), Degenerate((1, 0, 1), 4)]
     return cs
